@@ -1,0 +1,85 @@
+//go:build verif
+// +build verif
+
+// Contracts for deductive verification (govc, /verif). Comment-only file.
+
+package ledger
+
+// ======================= C08: block integrity =======================
+
+// ---- merkle tree ----
+// mnode(l, r): an inner node. No left child: nil; no right child: the left one
+// is paired with itself.
+//@ macro mnode(l, r) = l == nil ? nil : hash.DoubleSha256(bcat(l, r == nil ? l : r))
+//
+// merkleTreeOK(tree, txs, leaf): tree is the merkle tree of the ordered list txs
+// with leaf leaves: leaves are the txids in order, padded with nil; inner node
+// leaf+j is mnode of nodes 2j and 2j+1.
+//@ macro merkleTreeOK(tree, txs, leaf) = len(tree) == 2 * leaf - 1 && leaf >= len(txs) && len(txs) >= 1
+//@     && (forall k int :: 0 <= k && k < len(txs) ==> tree[k] == txs[k].Txid)
+//@     && (forall k int :: len(txs) <= k && k < leaf ==> tree[k] == nil)
+//@     && (forall j int :: 0 <= j && j < leaf - 1 ==> tree[leaf + j] == mnode(tree[2 * j], tree[2 * j + 1]))
+
+// Size of the leaf level: the count rounded up to a power of two (bit tricks and
+// float64 log2: outside the integer fragment; assumed, with a bounded stand-in).
+//@ func getLeafSize
+//@   noverify
+//@   pure
+//@   ensures at_least_count: txCount >= 1 ==> result >= txCount
+
+//@ func MakeMerkleTree
+//@   property C08
+//@   ensures empty_list_no_tree: len(txList) == 0 ==> result == nil
+//@   ensures tree_of_list: len(txList) > 0 ==> merkleTreeOK(result, txList, getLeafSize(len(txList)))
+//@   loop 1 invariant idx: 0 <= $i && $i <= len(txList) && len(tree) == treeSize && treeSize == 2 * leafSize - 1 && leafSize == getLeafSize(len(txList)) && leafSize >= len(txList)
+//@   loop 1 invariant filled: forall k int :: 0 <= k && k < $i ==> tree[k] == txList[k].Txid
+//@   loop 1 invariant rest_nil: forall k int :: $i <= k && k < treeSize ==> tree[k] == nil
+//@   loop 2 invariant idx: 0 <= i && i == 2 * (noneLeafOffset - leafSize) && noneLeafOffset <= treeSize && len(tree) == treeSize && treeSize == 2 * leafSize - 1 && leafSize == getLeafSize(len(txList)) && leafSize >= len(txList) && len(txList) >= 1
+//@   loop 2 invariant leaves: forall k int :: 0 <= k && k < len(txList) ==> tree[k] == txList[k].Txid
+//@   loop 2 invariant padding: forall k int :: len(txList) <= k && k < leafSize ==> tree[k] == nil
+//@   loop 2 invariant inner: forall j int :: 0 <= j && j < noneLeafOffset - leafSize ==> tree[leafSize + j] == mnode(tree[2 * j], tree[2 * j + 1])
+
+// The merkle root of a block is the root of the tree of exactly its ordered transaction list.
+//@ func VerifyMerkle
+//@   property C08
+//@   ensures root_of_body: result == nil ==> len(block.Transactions) > 0 && (exists tree [][]byte :: merkleTreeOK(tree, block.Transactions, getLeafSize(len(block.Transactions))) && bytesEq(tree[len(tree) - 1], block.MerkleRoot))
+
+// ---- block id ----
+// The id is the double SHA-256 of the trace of the hashed header fields, in this order.
+//@ macro trI(t, x) = trApp(t, boxed(x))
+//@ spec func trFailedTxs(t trace, b *xldgpb.InternalBlock) trace ~ len(b.FailedTxs) + len(b.FailedTxs[""]) + (in(b.FailedTxs, "") ? 1 : 0)
+//@ spec func trJustify(t trace, b *xldgpb.InternalBlock) trace ~ len(b.Justify.ProposalId) + len(b.Justify.ProposalMsg) + b.Justify.Type + b.Justify.ViewNumber + len(b.Justify.SignInfos.QCSignInfos) + len(b.Justify.SignInfos.QCSignInfos[0].Address) + len(b.Justify.SignInfos.QCSignInfos[0].PublicKey) + len(b.Justify.SignInfos.QCSignInfos[0].Sign)
+//@ macro blkT1(b) = trI(trI(trI(trEmpty(), b.Version), b.Nonce), b.TxCount)
+//@ macro blkT2(b) = b.Proposer == nil ? blkT1(b) : trI(blkT1(b), b.Proposer)
+//@ macro blkT3(b) = trI(blkT2(b), b.Timestamp)
+//@ macro blkT4(b) = b.Pubkey == nil ? blkT3(b) : trI(blkT3(b), b.Pubkey)
+//@ macro blkT5(b) = trI(trI(blkT4(b), b.PreHash), b.MerkleRoot)
+//@ macro blkT6(b) = trI(trI(trFailedTxs(blkT5(b), b), b.CurTerm), b.CurBlockNum)
+//@ macro blkT7(b) = b.TargetBits > 0 ? trI(blkT6(b), b.TargetBits) : blkT6(b)
+//@ macro blockIdTrace(b) = trJustify(blkT7(b), b)
+//@ macro blockIdOf(b) = hash.DoubleSha256(trBytes(blockIdTrace(b)))
+
+//@ func encodeFailedTxs
+//@   noverify
+//@   ensures appends_failed_txs: result == nil ==> bufTrace == upd(old(bufTrace), buf, trFailedTxs(sel(old(bufTrace), buf), block))
+//@ func encodeJustify
+//@   noverify
+//@   ensures appends_justify: result == nil ==> bufTrace == upd(old(bufTrace), buf, trJustify(sel(old(bufTrace), buf), block))
+
+//@ func MakeBlockID
+//@   property C08
+//@   ensures id_covers_header: result1 == nil ==> result0 == blockIdOf(block)
+
+// A block passes verification only if its id is the hash of its header fields,
+// its merkle root is the root of exactly its ordered transaction list, the hashed
+// transaction count is the length of that list, and its signature over the id
+// verifies under a public key that hashes to the stated proposer.
+//@ func Ledger.VerifyBlock
+//@   property C08
+//@   let cc = l.cryptoClient
+//@   let k = cc.GetEcdsaPublicKeyFromJsonStr(str(block.Pubkey))
+//@   ensures id_is_header_hash: result0 ==> bytesEq(blockIdOf(block), block.Blockid)
+//@   ensures root_of_body: result0 ==> len(block.Transactions) > 0 && (exists tree [][]byte :: merkleTreeOK(tree, block.Transactions, getLeafSize(len(block.Transactions))) && bytesEq(tree[len(tree) - 1], block.MerkleRoot))
+//@   ensures count_is_body_length: result0 ==> block.TxCount == len(block.Transactions)
+//@   ensures key_binds_proposer: result0 ==> cc.GetEcdsaPublicKeyFromJsonStr#1(str(block.Pubkey)) == nil && cc.VerifyAddressUsingPublicKey(str(block.Proposer), k)
+//@   ensures signature_over_id: result0 ==> cc.VerifyECDSA#1(k, block.Sign, block.Blockid) == nil && cc.VerifyECDSA(k, block.Sign, block.Blockid)
